@@ -11,7 +11,6 @@ typedef struct { uint64_t m_size; OUT_VEC_T *m_ptr; } ARRAY_NO_T;   /* non_ownin
 #define ARRAY_RW_MAX_ELEMS 8
 #endif
 #define CONTRACT_array_at(self, i) \
-  __CPROVER_requires(__CPROVER_is_fresh(self, sizeof(*self))) \
   __CPROVER_requires((self)->m_size <= ARRAY_MAX_ELEMS) \
   __CPROVER_requires(__CPROVER_is_fresh((self)->m_ptr, (self)->m_size * sizeof(OUT_VEC_T))) \
   __CPROVER_requires((i) < (self)->m_size) \
